@@ -20,7 +20,7 @@
 (***************************************************************************)
 EXTENDS Fen, Zobrist, TLC
 
-CONSTANTS Fam, Stride, Off
+CONSTANTS Fam, Stride, Off, WantM2
 
 Put(b, s, c) == [b EXCEPT ![s] = c]
 Mk(b, stm, cast, ep) == [board |-> b, stm |-> stm, cast |-> cast, ep |-> ep]
@@ -43,6 +43,17 @@ KXKY(wk) ==
         { t \in Sq \X Sq \X Sq \X {<<"P", "p">>, <<"R", "r">>} \X Sides :
             /\ Cardinality({wk, t[1], t[2], t[3]}) = 4 /\ t[1] \notin KingT[wk]
             /\ Sel(Mix(wk, t[1], t[2] + 64 * t[3], IF t[5] = White THEN 0 ELSE 1)) } }
+
+\* K + Q/R v K, attacker to move, defender's king on the rim: where the short mates live
+MateFam(wk) ==
+  { Mk(Put(Put(Put(EmptyBoard, wk, "K"), bk, "k"), x, pc), White, {}, 8) :
+      <<bk, x, pc>> \in
+        { t \in Sq \X Sq \X {"Q", "R"} :
+            /\ t[1] # wk /\ t[2] # wk /\ t[1] # t[2] /\ t[1] \notin KingT[wk]
+            /\ (Row(t[1]) \in {0, 7} \/ Col(t[1]) \in {0, 7})
+            /\ Sel(Mix(wk, t[1], t[2], PieceIdx(t[3]))) } }
+\* the same with colours reversed, and positions where the lone king is to move (dead roots)
+Mates(wk) == MateFam(wk) \cup { Mirror(p) : p \in MateFam(wk) } \cup { [p EXCEPT !.stm = Black] : p \in MateFam(wk) }
 
 CastleSkeleton(nb) ==
   LET b0 == Put(Put(Put(Put(Put(Put(EmptyBoard, 0, "R"), 4, "K"), 7, "R"), 56, "r"), 60, "k"), 63, "r")
@@ -85,7 +96,7 @@ Promo(f) == PromoW(f) \cup { Mirror(p) : p \in PromoW(f) }
 VARIABLE st
 Seeds == IF Fam = "PROMO" THEN 0..7 ELSE Sq
 Members(k) == CASE Fam = "KXK" -> KXK(k) [] Fam = "KXKY" -> KXKY(k) [] Fam = "CASTLE" -> Castle(k)
-                [] Fam = "EP" -> Ep(k) [] Fam = "PROMO" -> Promo(k)
+                [] Fam = "MATES" -> Mates(k) [] Fam = "EP" -> Ep(k) [] Fam = "PROMO" -> Promo(k)
 
 Init == st \in { [stage |-> 0, k |-> k] : k \in Seeds }
 Next == /\ st.stage = 0
@@ -97,6 +108,17 @@ Spec == Init /\ [][Next]_st
 PosView == st
 HashView == IF st.stage = 0 THEN <<0, st.k>> ELSE <<1, Hash(st.pos)>>
 NoEmit == TRUE
+
+\* the independent solver: dead roots, single-reply roots, mate in one, forced mate in two
+PosClass(p) ==
+  LET lg == Legal(p) IN
+  IF lg = {} THEN (IF InCheck(p.board, p.stm) THEN "mate" ELSE "stale")
+  ELSE IF Cardinality(lg) = 1 THEN "only"
+  ELSE IF MateIn1Moves(p) # {} THEN "m1"
+  ELSE IF WantM2 /\ KeepsMate2Moves(p) # {} THEN "m2"
+  ELSE "other"
+EmitClass == st.stage = 1 => LET c == PosClass(st.pos) IN
+                             IF c = "other" THEN TRUE ELSE PrintT(<<"POS", c, FenLine(st.pos) \o " 0 1">>)
 
 Emit == st.stage = 1 => PrintT(<<"FEN", FenLine(st.pos) \o " 0 1">>)
 =============================================================================
